@@ -390,6 +390,36 @@ def distinct_calls(rep):
     rep.extra["call_pairs"] = len(PAIRS) * 2
 
 
+def array_results(rep):
+    """a call that returns a 2-D array (or a Series) contributes exactly that array, for frames of
+    one, two and three rows (plain API; the symbolic cases use N = 2 rows)"""
+    from formulae import design_matrices
+
+    fns = {"two": lambda a, b: np.column_stack([a, b]), "col": lambda a: np.asarray(a).reshape(-1, 1) * 2.0, "ser": lambda a: pd.Series(np.asarray(a) + 1.0),
+           "three": lambda a, b: np.column_stack([a, b, np.asarray(a) - np.asarray(b)])}
+    n = 0
+    for rows in (1, 2, 3):
+        x = np.array([1.5, -2.0, 4.0][:rows]); z = np.array([0.25, 3.0, -7.0][:rows])
+        df = pd.DataFrame({"y": np.arange(rows) + 0.5, "x": x, "z": z})
+        for call, want in (("two(x, z)", np.column_stack([x, z])), ("col(x)", (x * 2.0).reshape(-1, 1)), ("ser(z)", (z + 1.0).reshape(-1, 1)), ("three(x, z)", np.column_stack([x, z, x - z]))):
+            for icpt in ("0 + ", ""):
+                n += 1
+                f = f"y ~ {icpt}{call}"
+                sig = {"kind": "array result", "what": "array-valued call", "formula": f, "rows": rows}
+                try:
+                    dm = design_matrices(f, df, extra_namespace=fns)
+                    got = np.asarray(dm.common[call], dtype=float)
+                    full = np.asarray(dm.common.design_matrix)
+                except Exception as e:  # noqa
+                    rep.violations.append({"label": "a call returning an array is refused", "signature": dict(sig, exc=type(e).__name__), "replay": {"formula": f, "rows": rows}, "reproduced": True, "detail": f"{f} on {rows} row(s): {type(e).__name__}: {e}"[:250]})
+                    continue
+                got = got.reshape(rows, -1) if got.ndim == 1 and want.shape[1] == 1 else got
+                if got.shape != want.shape or not np.array_equal(got, want) or full.shape != (rows, want.shape[1] + (0 if icpt else 1)):
+                    rep.violations.append({"label": "a call returning an array contributes exactly that array", "signature": sig, "replay": {"formula": f, "rows": rows, "got": got.tolist(), "want": want.tolist()}, "reproduced": True,
+                                           "detail": f"{f} on {rows} row(s): got shape {got.shape} / matrix {full.shape}, want {want.shape}"[:250]})
+    rep.extra["array_results"] = n
+
+
 def name_collisions(rep, tier):
     """texts with different Python trees must give different names (decided on the plain API)"""
     from formulae import model_description
@@ -434,6 +464,7 @@ def run(tier, seed):
     pipe.run_cases(rep, "vf.props.c12", "harness", cs)
     name_collisions(rep, tier)
     distinct_calls(rep)
+    array_results(rep)
     rep.nontrivial = rep.cases
     return core.finish(rep)
 
